@@ -531,6 +531,12 @@ func cliExpect(tree []treeFile, v cliInv) cliExpected {
 			return usage()
 		}
 		output = filepath.Clean(output)
+		if !dirDst && output != "." && fsys.lIsDir(output) {
+			// a file-form output (no trailing slash, one input) that names an existing directory: the documentation does
+			// not say whether it is used as a directory or refused; not predicted
+			exp.Unmodelled = "file-form output names an existing directory"
+			return exp
+		}
 	} else if !v.Bundle && len(inputs) > 1 {
 		return usage()
 	}
